@@ -299,7 +299,8 @@ func (m Manager) GetNodesDeployCapacity(ctx context.Context, nodenames []string,
 	for _, info := range resp {
 		info.Rate /= info.Weight
 		info.Usage /= info.Weight
-		if info.Capacity == math.MaxInt64 {
+		// saturating sum: stay at MaxInt64 once reached, never overflow
+		if info.Capacity > math.MaxInt64-total {
 			total = math.MaxInt64
 		} else {
 			total += info.Capacity
